@@ -19,7 +19,7 @@ def describe(tier):
     return {
         'rule': 'execution = (initial durable state s0 in {0,1,2} prepared by a sequential prefix, k scripted raw connections on one sid, schedule); '
                 'scripts from {[config],[config,upload],[upload],[search],[config,upload,search],[] (open, then close without a request - possibly while still waiting)} each ending in close, every connection with its own '
-                'distinguishable configuration and index (and, in the pair-paths units, its own request path / query string); a scripted client sends its next request as soon as it has its reply. Choice points = which '
+                'distinguishable configuration and index (and, in the pair-paths units, its own request path / query string; in the *-pending units the connection of the sequential prefix has just closed and its delayed cleanup is still pending, i.e. up to four connections per sid); a scripted client sends its next request as soon as it has its reply. Choice points = which '
                 'connection\'s next server-bound frame (init, request, close frame, EOF) is delivered next and whether the server\'s 1 s cleanup timer '
                 'fires first; per-connection FIFO; client-bound frames and HTTP upgrades are delivered eagerly. ALL schedules are enumerated for '
                 'every ordered pair of scripts x s0 (cap %d per pair, reported if hit); 3-connection triples with at most %d deviation(s) from the '
@@ -48,6 +48,13 @@ def units(tier, seed):
             if a == 'X' and b == 'X':
                 continue
             us.append(('pair-paths/s%d/%s/%s' % (s0, a, b), {'s0': s0, 'scripts': [a, b], 'bound': BOUND3[tier], 'limit': LIMIT2[tier], 'paths': 'distinct'}))
+    for s0 in (1, 2):
+        for t in TRIPLES:
+            us.append(('triple-pending/s%d/%s' % (s0, '-'.join(t)), {'s0': s0, 'scripts': list(t), 'bound': BOUND3[tier], 'limit': LIMIT3[tier], 'pending': True}))
+        for a, b in itertools.product(names, repeat=2):
+            if a == 'X' and b == 'X':
+                continue
+            us.append(('pair-pending/s%d/%s/%s' % (s0, a, b), {'s0': s0, 'scripts': [a, b], 'bound': BOUND3[tier] + 1, 'limit': LIMIT2[tier], 'pending': True}))
     for s0 in (0, 1, 2):
         for t in TRIPLES:
             us.append(('triple/s%d/%s' % (s0, '-'.join(t)), {'s0': s0, 'scripts': list(t), 'bound': BOUND3[tier], 'limit': LIMIT3[tier]}))
@@ -63,7 +70,7 @@ def fixture(seed):
     return _fx[seed]
 
 
-def execute(fx, s0, scripts, prefix, max_steps=60000, paths='same'):
+def execute(fx, s0, scripts, prefix, max_steps=60000, paths='same', pending=False):
     """one execution; returns (trace, observation dict)"""
     m = fe.mods()
     ws_mod = m['websockets']
@@ -85,7 +92,9 @@ def execute(fx, s0, scripts, prefix, max_steps=60000, paths='same'):
                 p0.send('upload_edb', fx.edbs[0])
                 fe.settle(loop)
             p0.close()
-            fe.settle(loop, timers=True)
+            # pending: the predecessor's delayed cleanup (1 s after its close) has NOT run yet when the scripted connections
+            # arrive - its timer is one more schedulable event of the exploration
+            fe.settle(loop, timers=not pending)
         k = len(scripts)
         conn_no = {}              # connection number n -> client index j
         server_tr = {}            # j -> server-side transport
@@ -277,7 +286,7 @@ def run_unit(p, tier, seed):
 
     def run(prefix):
         det.seed_case(seed, PROPERTY, s0, tuple(scripts))
-        return execute(fx, s0, scripts, prefix, paths=p.get('paths', 'same'))
+        return execute(fx, s0, scripts, prefix, paths=p.get('paths', 'same'), pending=bool(p.get('pending')))
 
     def on_result(choices, trace, obs):
         r['evaluations'] += 1
@@ -304,7 +313,7 @@ def run_unit(p, tier, seed):
     if capped:
         r['caps'].append('C12 %s s0=%d: schedule cap %d hit (complete below deviation %s)' % (scripts, s0, p['limit'], min(per_dev) if per_dev else 0))
     for (kind, site), (rank, choices, prob, log, labels) in sorted(best.items(), key=lambda kv: kv[1][0]):
-        r.v(PROPERTY, 'server', kind, site, dict({'s0': s0, 'scripts': scripts, 'schedule': list(choices), 'deviations': rank[0]}, **({'paths': p['paths']} if p.get('paths') else {})), prob[2], prob[3],
+        r.v(PROPERTY, 'server', kind, site, dict({'s0': s0, 'scripts': scripts, 'schedule': list(choices), 'deviations': rank[0]}, **dict(({'paths': p['paths']} if p.get('paths') else {}), **({'pending': True} if p.get('pending') else {}))), prob[2], prob[3],
             detail='client log: %s\nchoice labels: %s' % (log, labels))
         r.outcome(kind)
     r.outcome('explored/%d-connections' % len(scripts))
@@ -319,7 +328,7 @@ def replay(case, seed):
     r = core.Result()
     fx = fixture(seed)
     det.seed_case(seed, PROPERTY, case['s0'], tuple(case['scripts']))
-    trace, obs = execute(fx, case['s0'], case['scripts'], tuple(case['schedule']), paths=case.get('paths', 'same'))
+    trace, obs = execute(fx, case['s0'], case['scripts'], tuple(case['schedule']), paths=case.get('paths', 'same'), pending=bool(case.get('pending')))
     for prob in obs['problems']:
         r.v(PROPERTY, 'server', prob[0], prob[1], case, prob[2], prob[3])
     return r['violations']
